@@ -120,8 +120,8 @@ CLAIMED = {
          'to_float for EVERY finite float32 column of m rows: stored integers within +-127 / +-32767 (no wrap), round trip within bucket/2 + 2 ulp(maxabs), zeros and the '
          'extracted diagonal exact, re-quantisation reproduces the same integers; XLA:CPU lowers divisions by constants / broadcast operands as reciprocal multiplications '
          '(found by the translator validation V0: 1 ulp), so every such division is modelled as either lowering and each obligation holds for all assignments; V0 compares the '
-         'encoding with the real code bit for bit (op-by-op and jitted) on boundary and random inputs; three genuine boundary defects (max-abs = FLT_MAX overflows to inf; max-abs below 127*2^-126 flushes to 0; '
-         'subnormal diagonal entries flushed) are recorded as known findings, excluded by assumption and re-confirmed by replay on every run.',
+         'encoding with the real code bit for bit (op-by-op and jitted) on boundary and random inputs; four genuine boundary defects (max-abs = FLT_MAX overflows to inf; max-abs below 127*2^-126 flushes to 0; '
+         'subnormal diagonal entries flushed; a subnormal entry next to a bucket below 2^-125 flushed) are recorded as known findings, excluded by assumption and re-confirmed by replay on every run.',
     note='m <= 2 rows per column in the quick tier (3 thorough); bfloat16 mode not encoded; columns independent (the jaxpr reduces over axis 0 only); no FMA contraction.',
     design='§3 C11', technique='jaxpr->SMT in QF_FP (bit-precise float32 with FTZ), cvc5/z3 portfolio'),
   'C17': dict(
